@@ -218,7 +218,8 @@ def c18(tier):
             Ob('c18_is_leap_contract_holds', note='contract of is_leap_year used below'),
             Ob('c18_year_doy_contract_holds', unwind=14, slices=[{'y': (-5_879_611, -1)}, {'y': (1, 5_879_611)}], timeout=900, note='contract of year_doy_to_days used below (Julian rule days skip 29 February)')]
     R = ['days_to_date/uf', 'date_to_days', 'year_doy_to_days', 'is_leap_year', 'spec_rd/uf', 'spec_is_leap/uf']
-    obs.append(Ob('c18_rule_day_holds', abstractions=R, unwind=14, slices=[{'kind': (k, k)} for k in (0, 1, 2)], validate=False, note='rule day -> local instant vs the closed-form calendar reference'))
+    obs.append(Ob('c18_rule_day_holds', abstractions=R, unwind=14, slices=[{'kind': (0, 0)}, {'kind': (1, 1)}] + [{'kind': (2, 2), 'c': (c, c)} for c in range(7)], timeout=900, validate=False,
+                  note='rule day -> local instant vs the closed-form calendar reference (Mm.w.d sliced by weekday)'))
     obs.append(Ob('c18_alt_branch_holds', abstractions=['rule_to_local_timestamp/uf'], unwind=14, validate=False,
                   note='daylight time exactly between the two rule instants, either order (hemisphere), for any values of the instants'))
     pairs = [(0, 1)] if not thorough else [(0, 1), (1, 0), (0, 0), (1, 1), (1, 2)]
